@@ -205,6 +205,9 @@ func (s *Solver) Check(extra *Term, vars []*Term) (Verdict, map[string]uint64) {
 			v = Unknown
 		}
 	}
+	if s.Transcript != nil {
+		io.WriteString(s.Transcript, "; => "+v.String()+"\n")
+	}
 	var model map[string]uint64
 	if v == Sat && vars != nil {
 		model = s.getValues(vars)
